@@ -29,6 +29,10 @@ pub struct Cfg {
     pub via_router: bool,
     /// everything the fresh node sends during its first `uplink_down_ms` is lost
     pub uplink_down_ms: u64,
+    /// the caller drops every search's stream at once (announce-only use); announces on the wire are compared
+    pub drop_streams: bool,
+    /// extra scripted nodes given to the fresh node as contacts (>= 10 good nodes: it stays Bootstrapped)
+    pub crowd: usize,
     pub rng_seed: u64,
 }
 
@@ -54,6 +58,24 @@ pub fn build(cfg: &Cfg) -> (Scenario, Vec<Box<dyn Peer>>) {
         contacts.push(silent_addr(cfg.v6));
         peers.push(Box::new(Sink { addr: silent_addr(cfg.v6), received: vec![] }));
     }
+    if cfg.crowd > 0 {
+        // one connected network: the scripted nodes know each other and the real mesh nodes
+        let mut all: Vec<([u8; 20], SocketAddr)> = (0..cfg.crowd)
+            .map(|i| {
+                let mut id = SplitMix(0xc16_c0 + i as u64).bytes20();
+                id[0] = (i as u8).wrapping_mul(23);
+                (id, format!("10.0.16.{}:6881", i + 1).parse().unwrap())
+            })
+            .collect();
+        for i in 0..cfg.mesh {
+            all.push((c01::node_id(&base, i).into(), c01::node_addr(i, cfg.v6)));
+        }
+        let uni: Arc<Vec<([u8; 20], SocketAddr)>> = Arc::new(all);
+        for (id, addr) in uni.iter().take(cfg.crowd) {
+            peers.push(Box::new(crate::sim::peers::Responder::new(*addr, *id, uni.clone())));
+            contacts.push(*addr);
+        }
+    }
     let mut idb = SplitMix(0xf4e5).bytes20();
     idb[0] = 0xf5;
     if cfg.via_router {
@@ -73,6 +95,10 @@ pub fn build(cfg: &Cfg) -> (Scenario, Vec<Box<dyn Peer>>) {
             None if cfg.via_router => When::At(T_FRESH + 20_000),
             None => When::After { tag: "bootF".into(), delay: 1 },
         };
+        if cfg.drop_streams {
+            sc.actions.push((when, Action::SearchDrop { node: f, info_hash: hash(*h), announce: *ann, tag: tag.clone(), after_ms: 0 }));
+            continue;
+        }
         sc.actions.push((when, Action::Search { node: f, info_hash: hash(*h), announce: *ann, tag: tag.clone() }));
         tags.push(tag);
     }
@@ -81,7 +107,11 @@ pub fn build(cfg: &Cfg) -> (Scenario, Vec<Box<dyn Peer>>) {
     }
     sc.stop_after = tags;
     sc.linger_ms = 50;
-    sc.horizon_ms = T_FRESH + if cfg.via_router { 40_000 } else { 120_000 };
+    sc.horizon_ms = T_FRESH + if cfg.via_router || cfg.drop_streams { 40_000 } else { 120_000 };
+    if cfg.drop_streams {
+        // nothing to wait for: fixed horizon
+        sc.stop_after.clear();
+    }
     if cfg.via_router {
         sc.actions.push((When::At(sc.horizon_ms - 1_000), Action::GetState { node: f, tag: "endstate".into() }));
     }
@@ -103,6 +133,8 @@ pub struct Obs {
     pub keys: Vec<String>,
     /// good contacts the node reports shortly before the end of the run
     pub good_at_end: Option<usize>,
+    /// per search: destinations of the announce_peer queries the fresh node sent for its info-hash
+    pub announced: Vec<BTreeSet<SocketAddr>>,
 }
 
 pub fn observe(cfg: &Cfg, res: &RunResult) -> Obs {
@@ -116,7 +148,16 @@ pub fn observe(cfg: &Cfg, res: &RunResult) -> Obs {
         (sim::ApiKind::State { good, .. }, true) => Some(*good),
         _ => None,
     });
-    Obs { results, boot_ms: res.resolved("bootF").map(|r| r.0), keys: res.choices.iter().map(|c| c.0.clone()).collect(), good_at_end }
+    let fa = fresh_addr(cfg.v6);
+    let announced = cfg
+        .searches
+        .iter()
+        .map(|(_, h, _)| {
+            let ih: [u8; 20] = hash(*h).into();
+            res.wire.iter().filter(|d| d.src == fa).filter(|d| { let p = sim::krpc::parse(&d.bytes); p.is_query("announce_peer") && p.target == Some(ih) }).map(|d| d.dst).collect()
+        })
+        .collect();
+    Obs { announced, results, boot_ms: res.resolved("bootF").map(|r| r.0), keys: res.choices.iter().map(|c| c.0.clone()).collect(), good_at_end }
 }
 
 pub fn run_cfg(cfg: &Cfg, fates: &[Option<Fate>], prefix: &[usize]) -> (RunResult, Obs, bool) {
@@ -139,6 +180,15 @@ fn late_variant(cfg: &Cfg) -> Cfg {
 /// Compare an early run with the run in which the same searches are issued right after bootstrapped().
 pub fn compare(cfg: &Cfg, early: &Obs, late: &Obs) -> Vec<(String, String)> {
     let mut v = vec![];
+    if cfg.drop_streams {
+        // nobody reads the streams: what can be compared is the announcing itself
+        for (k, (off, h, ann)) in cfg.searches.iter().enumerate() {
+            if *ann && early.announced[k].is_empty() && !late.announced[k].is_empty() {
+                v.push(("early-announce-never-made".to_string(), format!("announcing search #{k} (hash {h}) requested {:?} ms after start, stream dropped at once: no announce_peer is ever sent; requested right after bootstrapped() it announces to {:?}", off, late.announced[k])));
+            }
+        }
+        return v;
+    }
     for (k, (off, h, _)) in cfg.searches.iter().enumerate() {
         match (&early.results[k], &late.results[k]) {
             // an early search must end whenever the same search issued after bootstrap ends; when the
@@ -173,7 +223,7 @@ pub fn compare(cfg: &Cfg, early: &Obs, late: &Obs) -> Vec<(String, String)> {
 }
 
 fn cfg_json(c: &Cfg) -> Value {
-    json!({"mesh":c.mesh,"v6":c.v6,"contacts":c.contacts,"silent_contact":c.silent_contact,"latency":c.latency,"via_router":c.via_router,"uplink_down_ms":c.uplink_down_ms,"rng_seed":c.rng_seed,
+    json!({"mesh":c.mesh,"v6":c.v6,"contacts":c.contacts,"silent_contact":c.silent_contact,"latency":c.latency,"via_router":c.via_router,"uplink_down_ms":c.uplink_down_ms,"drop_streams":c.drop_streams,"crowd":c.crowd,"rng_seed":c.rng_seed,
         "searches": c.searches.iter().map(|(o,h,a)| json!([o,h,a])).collect::<Vec<_>>()})
 }
 fn cfg_parse(v: &Value) -> Cfg {
@@ -185,6 +235,8 @@ fn cfg_parse(v: &Value) -> Cfg {
         latency: v["latency"].as_u64().unwrap_or(20),
         via_router: v["via_router"].as_bool().unwrap_or(false),
         uplink_down_ms: v["uplink_down_ms"].as_u64().unwrap_or(0),
+        drop_streams: v["drop_streams"].as_bool().unwrap_or(false),
+        crowd: v["crowd"].as_u64().unwrap_or(0) as usize,
         rng_seed: v["rng_seed"].as_u64().unwrap_or(1),
         searches: v["searches"].as_array().map(|a| a.iter().map(|s| (s[0].as_u64(), s[1].as_u64().unwrap_or(0) as u8, s[2].as_bool().unwrap_or(false))).collect()).unwrap_or_default(),
     }
@@ -223,7 +275,7 @@ pub fn run(tier: Tier) -> Report {
                     if v6 && latency == 480 {
                         continue;
                     }
-                    bases.push(Cfg { mesh, v6, contacts: contacts.clone(), silent_contact: silent, latency, searches: vec![], via_router: false, uplink_down_ms: 0, rng_seed: seed });
+                    bases.push(Cfg { mesh, v6, contacts: contacts.clone(), silent_contact: silent, latency, searches: vec![], via_router: false, uplink_down_ms: 0, drop_streams: false, crowd: 0, rng_seed: seed });
                 }
             }
         }
@@ -269,7 +321,23 @@ pub fn run(tier: Tier) -> Report {
     // long bootstraps: the fresh node's uplink is dead for 3 / 12 / 35 / 70 s (attempts fail and back off)
     for down in [3_000u64, 12_000, 35_000, 70_000] {
         for o in [0u64, 1_000, 29_000, 31_000] {
-            work.push(Cfg { mesh: 2, v6: false, contacts: vec![0], silent_contact: false, latency: 20, searches: vec![(Some(o), 0, false), (Some(o + 5), 0, true)], via_router: false, uplink_down_ms: down, rng_seed: seed });
+            work.push(Cfg { mesh: 2, v6: false, contacts: vec![0], silent_contact: false, latency: 20, searches: vec![(Some(o), 0, false), (Some(o + 5), 0, true)], via_router: false, uplink_down_ms: down, drop_streams: false, crowd: 0, rng_seed: seed });
+        }
+    }
+    // announce-only use: the stream of an early announcing search is dropped at once
+    for mesh in [2usize, 3] {
+        for o in [0u64, 1, 15] {
+            for crowd in [0usize, 12] {
+                work.push(Cfg { mesh, v6: false, contacts: vec![0], silent_contact: false, latency: 20, searches: vec![(Some(o), 0, true), (Some(o), 1, true)], via_router: false, uplink_down_ms: 0, drop_streams: true, crowd, rng_seed: seed });
+            }
+        }
+    }
+    // many early searches on a node that ends up with >= 10 good nodes (the state stays Bootstrapped: no
+    // further bootstrap event will ever come)
+    for nsearch in [9usize, 12, 20] {
+        for o in [0u64, 10] {
+            let searches: Vec<(Option<u64>, u8, bool)> = (0..nsearch).map(|k| (Some(o + (k as u64 % 3)), (k % 2) as u8, k % 4 == 0)).collect();
+            work.push(Cfg { mesh: 2, v6: false, contacts: vec![0], silent_contact: false, latency: 20, searches, via_router: false, uplink_down_ms: 0, drop_streams: false, crowd: 14, rng_seed: seed });
         }
     }
     // routers only: the node works from the routers' answers without ever being "Bootstrapped"
@@ -277,7 +345,7 @@ pub fn run(tier: Tier) -> Report {
         for latency in [1u64, 200] {
             for o in [0u64, 1, 2 * latency + 2, 3_000, 6_000] {
                 for ann in [false, true] {
-                    work.push(Cfg { mesh, v6: false, contacts: vec![0], silent_contact: false, latency, searches: vec![(Some(o), 0, ann)], via_router: true, uplink_down_ms: 0, rng_seed: seed });
+                    work.push(Cfg { mesh, v6: false, contacts: vec![0], silent_contact: false, latency, searches: vec![(Some(o), 0, ann)], via_router: true, uplink_down_ms: 0, drop_streams: false, crowd: 0, rng_seed: seed });
                 }
             }
         }
